@@ -5,6 +5,7 @@ pub mod c03;
 pub mod c04;
 pub mod c05;
 pub mod c09;
+pub mod c10;
 pub mod c15;
 pub mod c16;
 pub mod c17;
@@ -20,6 +21,7 @@ pub fn run(id: &str, eng: &mut Engine) -> bool {
         "C04" => c04::run(eng),
         "C05" => c05::run(eng),
         "C09" => c09::run(eng),
+        "C10" => c10::run(eng),
         "C15" => c15::run(eng),
         "C16" => c16::run(eng),
         "C17" => c17::run(eng),
